@@ -215,8 +215,11 @@ def design(thorough):
         # every action of the design modules must have fired (an action that never fires is a modelling hole)
         # (module, config, actions that cannot fire under that config's constants)
         for mod, cfg, na in (("AggregatorMC", "Aggregator_exh.cfg", ()), ("AggregatorMC", "Aggregator_exh_fault_block.cfg", ()),
-                             ("ShutdownMC", "Shutdown_exh_drop_slow_small.cfg", ("ReportBlocks", "Unblock")),
-                             ("ShutdownMC", "Shutdown_exh_slow_small.cfg", ()),
+                             # (Hangs: a shot that never comes back exists only under Hang = TRUE - Shutdown_exh_hang*.cfg)
+                             ("ShutdownMC", "Shutdown_exh_drop_slow_small.cfg", ("ReportBlocks", "Unblock", "Hangs")),
+                             ("ShutdownMC", "Shutdown_exh_slow_small.cfg", ("Hangs",)),
+                             # ... and there it must fire (untrapped signals are not part of that configuration)
+                             ("ShutdownMC", "Shutdown_exh_hang_slow_small.cfg", ("UntrappedSignal",)),
                              ("PoolAggMC", "PoolAgg_exh_small2.cfg", ())):
             r = vlib.tlc(mod, cfg, workers=4, heap="4g", timeout=3000, deadlock=False, coverage=True)
             vlib.tlc_must_pass(r, cfg + " (coverage)")
